@@ -90,7 +90,7 @@ def exceptions() -> list[Any]:
     chained = RuntimeError("outer")
     chained.__cause__ = ValueError("inner")
     return [ValueError("boom"), RuntimeError(""), TimeoutError("t/o é"), KeyError("k"), OSError(2, "No such file"),
-            E.CustomErr("custom é"), E.CustomValueErr("cv"), chained, Exception("multi\nline"), ZeroDivisionError("division by zero"),
+            E.CustomErr("custom é"), E.CustomValueErr("cv"), E.CustomKeyErr("user-42"), E.CustomKeyErr(7), E.CustomLookupErr("lk"), chained, Exception("multi\nline"), ZeroDivisionError("division by zero"),
             IndexError("i"), AssertionError("a")]
 
 
